@@ -352,3 +352,63 @@ def build_declare(module):
                                notes='attribute: %s, %s' % ({'list': 'a list of identifiers (any length)', 'one': 'one identifier', 'none': 'None', 'empty': 'an empty list'}[shape],
                                                             'handler present' if has_handler else 'no handler')))
     return cs
+
+
+def build_deferrables(module):
+    """Resolve / Literal / Comment.__call__ (C07: every occurrence of an identifier prints what the obfuscator's handler
+    answers for exactly this node; C13 / C01 / C02: literals and comments likewise): the handler the dispatcher holds for
+    THIS rule object is called exactly once with (dispatcher, node) and its answer is returned unchanged; without a handler
+    the node's own text is returned (Comment: nothing); Resolve refuses a node that is not an Identifier before anything is
+    looked up.  The handler double answers a wrong call (other arguments, a second call) with a fresh string, the lookup double
+    counts a lookup for another rule object.  Attr._getattr / Operator._getattr: the attribute named, a Deferrable's answer
+    for exactly (dispatcher, node), the rule's own value for an Operator without attribute name.  Iter: iter(node)."""
+    from vf.pyvc.dsl import Str
+    cs = []
+    for cname in ('Resolve', 'Literal', 'Comment'):
+        cls = getattr(module, cname)
+        for has_handler in (True, False):
+            for is_ident in ((True, False) if cname == 'Resolve' else (True,)):
+                disp = PObj(object, name='dispatcher')
+                the_node = PObj(module.Identifier if is_ident else module.Elision, name="node")
+                slf = PObj(cls, name='self')
+                state = {'wrong': 0, 'calls': 0, 'answer': None, 'text': None}
+
+                def handler(e, a, k, disp=disp, the_node=the_node, state=state):
+                    state['calls'] += 1
+                    if len(a) == 2 and a[0] is disp and a[1] is the_node and not k and state['calls'] == 1:
+                        return state['answer']
+                    state['wrong'] += 1
+                    return e.fresh(Str, 'wrong_handler_call')
+                hext = PExt('deferrable_handler', handler)
+
+                def lookup(e, a, k, slf=slf, hext=hext, has_handler=has_handler, state=state):
+                    if len(a) != 1 or a[0] is not slf or k:
+                        state['wrong'] += 1
+                    return hext if has_handler else NotImplemented
+                disp.fields['deferrable'] = PExt('Dispatcher.deferrable', lookup)
+
+                def reset(e=None, state=state, the_node=the_node):
+                    state.update(wrong=0, calls=0)
+                    state['answer'] = Str.fresh('handler_answer')
+                    state['text'] = Str.fresh('node_value')
+                    the_node.fields['value'] = state['text']
+                reset()
+                env = {'__reset__': reset,
+                       'answer': Helper(lambda e, state=state: state['answer']),
+                       'node_text': Helper(lambda e, state=state: state['text']),
+                       'calls': Helper(lambda e, state=state: state['calls']),
+                       'no_wrong_calls': Helper(lambda e, state=state: state['wrong'] == 0)}
+                params = {'self': Const(slf), 'dispatcher': Const(disp), 'node': Const(the_node)}
+                note = '%s, %s' % ('handler present' if has_handler else 'no handler', 'an Identifier' if is_ident else 'not an Identifier')
+                if not is_ident:
+                    cs.append(Contract(MODULE + ':%s.__call__' % cname, params=params, raises={'TypeError': 'True'},
+                                       ensures=['False'], env=env, notes=note + ' (TypeError, nothing called)'))
+                    continue
+                if has_handler:
+                    ens = ['result == answer()', 'calls() == 1', 'no_wrong_calls()']
+                elif cname == 'Comment':
+                    ens = ['result is None', 'calls() == 0', 'no_wrong_calls()']
+                else:
+                    ens = ['result == node_text()', 'calls() == 0', 'no_wrong_calls()']
+                cs.append(Contract(MODULE + ':%s.__call__' % cname, params=params, ensures=ens, env=env, notes=note))
+    return cs
